@@ -99,7 +99,7 @@ def event_validator_admits(ctx, rule='EVENT/validator-admits'):
       consts['self.' + st.targets[0].id] = st.value
   fd = fold.Folder(ctx.P, ctx.S)
   try:
-    ps = pathval.paths(val.node.body, effects=True, opaque=True)
+    ps = pathval.paths(val.node.body, effects=True, opaque=True, strict_exits=True)
   except pathval.PathError as e:
     why = 'cannot classify: the validator is not a straight-line block (%s)' % e
     ctx.ob(rule, val, val.node, False, why, construct='PerformanceEvent accepts the decodable events', unknown=why)
@@ -194,9 +194,9 @@ def chord_labels_below_num_classes(ctx, rule='CHORD/label-below-num-classes'):
     cons = '%s.encode_event returns labels below num_classes' % cname
     nret = [s_.value for s_ in ncm.node.body if isinstance(s_, ast.Return) and s_.value is not None]
     ncl = _interval(ctx, mi, nret[0], fd) if len(nret) == 1 else None
-    rets, why = [], None
+    rets, why, narrowed = [], None, []
     try:
-      for conds, env, end in pathval.paths(enc.node.body, opaque=True):
+      for conds, env, end in pathval.paths(enc.node.body, opaque=True, strict_exits=True):
         if end != 'return' or pathval.RETURN not in env:
           continue
         r = env[pathval.RETURN]
@@ -206,12 +206,24 @@ def chord_labels_below_num_classes(ctx, rule='CHORD/label-below-num-classes'):
           continue
         params = g.params()
         sub = dict(zip(params, r.args))
-        for conds2, env2, end2 in pathval.paths(g.node.body, opaque=True):
+        for conds2, env2, end2 in pathval.paths(g.node.body, opaque=True, strict_exits=True):
           if end2 == 'return' and pathval.RETURN in env2:
-            rets.append(pathval.subst(env2[pathval.RETURN], sub))
+            r2 = pathval.subst(env2[pathval.RETURN], sub)
+            # the position of a member in a table is bounded by the table's length - unless the path admits only part of the table
+            # (a test against a slice or a filtered copy of it): then the bound is not read here
+            tabs = set(x.func.value.id for x in ast.walk(r2) if isinstance(x, ast.Call) and isinstance(x.func, ast.Attribute) and x.func.attr == 'index' and isinstance(x.func.value, ast.Name))
+            partial = [t for t, _p in conds2 for x in ast.walk(t) if isinstance(x, ast.Name) and x.id in tabs and
+                       not (isinstance(t, ast.Compare) and len(t.ops) == 1 and isinstance(t.ops[0], (ast.In, ast.NotIn)) and t.comparators[0] is x)]
+            if partial:
+              narrowed.append((r2, norm_text(partial[0])))
+            else:
+              rets.append(r2)
     except pathval.PathError as e:
       why = 'cannot classify: %s is not a block of assignments, tests and returns (%s)' % (enc.qualname, e)
-    if why is None and (ncl is None or not rets):
+    for r2, t2 in narrowed:
+      why2 = 'cannot classify: the label %s is returned on a path that admits only part of the table (%s)' % (norm_text(r2)[:60], t2[:60])
+      ctx.ob(rule, enc, enc.node, False, why2, construct=cons + ' (%s)' % norm_text(r2)[:40], unknown=why2)
+    if why is None and (ncl is None or not (rets or narrowed)):
       why = 'cannot classify: num_classes of %s is not a constant expression, or encode_event has no returning path' % cname
     if why is not None:
       ctx.ob(rule, enc, enc.node, False, why, construct=cons, unknown=why)
@@ -868,3 +880,4 @@ RENAME_FUNCS = [(PE, 'PerformanceOneHotEncoding.encode_event'), (PE, 'Performanc
 EXPLANATION += (' Location-independent additions: INV/chords-block-split (dividend of divmod / // / % by the octave is index - 1), TAB/performance-range-inclusion (a range is listed iff lo <= hi). Module-level numeric constants are folded in all normal forms (nf.GLOBAL_CONSTS).')
 EXPLANATION += (' Round 6: ' + 'PITFALL/narrowing-cast over every method of every one-hot encoding; PITCHCLASS/reduced (chord_symbol_root / chord_symbol_bass return a value reduced modulo 12; a reduction written as loops is judged at -1, 0, 11, 12).')
 EXPLANATION += (' Round 7: ' + 'INV/melody-scenarios (three ranges x five events, encode and decode folded); CHORD/quality-needs-all-degrees.')
+EXPLANATION += (' Rounds 9-10: ' + 'EVENT/validator-admits (the PerformanceEvent validator evaluated on twelve decodable events); CHORD/label-below-num-classes (interval of every returned label against num_classes).')
